@@ -145,6 +145,13 @@ Proof.
   destruct HB as (Hls & Hhs & Hc0 & Hrest). destruct Hin as [<- | Hin]; [exact Hhs|]. eapply IH; eassumption.
 Qed.
 
+Lemma kids_bounded_right_c28 (P : option key -> option key -> tree -> Prop) kids : forall lo hi r,
+  kids_bounded P lo hi kids r -> exists lo', P lo' hi r.
+Proof.
+  induction kids as [|sc rest IH]; intros lo hi r HB; [exists lo; exact HB|].
+  destruct HB as (_ & _ & _ & H4). eapply IH. exact H4.
+Qed.
+
 (* splitting a bounded separator list at one separator *)
 Lemma kids_bounded_app (P : option key -> option key -> tree -> Prop) a : forall lo hi s c b r,
   kids_bounded P lo hi (a ++ (s, c) :: b) r <->
@@ -266,6 +273,21 @@ Proof.
   - destruct HB as [_ HB]. destruct (kids_child _ kids lo hi r k HB Hlo Hhi) as (Hc & Hl & Hh).
     destruct (IH _ _ _ k Hc Hl Hh) as (l & Hr & Hin). exists l. split; [exact Hr|].
     intros c Hc1 Hk. apply Hin; [|exact Hk]. rewrite abs_node in Hc1. eapply kabs_key_in_child; eassumption.
+Qed.
+
+Lemma flat_sorted_each_c28 (ls : list leaf) l : ssorted V (flat_map (@lcells V) ls) -> In l ls -> ssorted V (lcells l).
+Proof.
+  induction ls as [|x ls IH]; intros Hs Hin; [destruct Hin|]. cbn [flat_map] in Hs.
+  apply ssorted_app in Hs as (H1 & H2 & _). destruct Hin as [<- | Hin]; [exact H1 | apply IH; assumption].
+Qed.
+
+Lemma leaves_last_c28 : forall h lo hi (t : tree), bounded h lo hi t -> exists pre, leaves h t = pre ++ [last_leaf V t].
+Proof.
+  induction h as [|h' IH]; intros lo hi t HB; destruct t as [l | id kids r]; cbn in HB; try contradiction.
+  - exists []. reflexivity.
+  - destruct HB as [_ HB]. destruct (kids_bounded_right_c28 _ _ _ _ _ HB) as (lo' & Hr).
+    destruct (IH _ _ _ Hr) as (pre & Hp). rewrite leaves_node. unfold kleaves. rewrite Hp. cbn [last_leaf].
+    eexists. rewrite app_assoc. reflexivity.
 Qed.
 
 End P.
